@@ -11,7 +11,7 @@ Open Scope Z_scope.
 Definition cfg_old : cfg := mkcfg 1 1 4576918229304087675%N 1 1 1 1.
 
 Lemma gridrcb_T1_stuck_4x4 : forall fuel,
-  grid_rcb cfg_old fuel 1 false [4; 4]%nat (repeat 1 16) 2 16 = OutOfFuel.
+  grid_rcb cfg_old fuel 1 I64 [4; 4]%nat (repeat 1 16) 2 16 = OutOfFuel.
 Proof.
   intros fuel. unfold grid_rcb. cbn [existsb Nat.eqb orb length].
   change (sumZ (repeat 1 16)) with 16.
@@ -20,7 +20,7 @@ Proof.
   replace (axis_weights [4; 4]%nat (repeat 1 16) [(0, 4); (0, 4)]%nat 1) with (Ok [4; 4; 4; 4])
     by (vm_compute; reflexivity).
   cbn [bind].
-  rewrite (weighted_median_T1_stuck cfg_old false [4; 4; 4; 4] 16 (le_n 1) (le_n 1)).
+  rewrite (weighted_median_T1_stuck cfg_old I64 [4; 4; 4; 4] 16 (le_n 1) (le_n 1)).
   - reflexivity.
   - cbn. lia.
   - vm_compute. reflexivity.
